@@ -96,9 +96,10 @@ OnStore(m, e) ==
       LET t == m.owner[k] IN
       R([m EXCEPT !.msgs[t].relSaved = TRUE], If(~m.msgs[t].rec /\ ~m.garbled, "C13_NoForgedProgress"))
     ELSE R(m, {"C03_RelForUnknown"})
-  ELSE IF e.op = "Save" /\ e.kind = "MARK" THEN
+  ELSE IF e.op = "Save" /\ (e.kind = "MARK" \/ k >= MarkFlag) THEN
     \* a marker is saved for a message that was returned and whose cycle is still open, and for nothing else
-    \* (a stale marker makes the next message with that identifier disappear)
+    \* (a stale marker makes the next message with that identifier disappear); whatever is saved under a
+    \* marker key is a marker
     LET id == k - MarkFlag
         known == Has(m.inbId, id)
         tg == IF known THEN m.inbId[id] ELSE 0
